@@ -165,6 +165,12 @@ fn render(toks: &[Tok], rng: &mut StdRng) -> (String, Vec<(usize, usize)>) {
     (out, pos)
 }
 
+/// the text of an encoded token sequence (spec/Parse.tla `EncAll`), with seeded random trivia and spellings
+pub fn render_encoded(toks: &[Value], rng: &mut StdRng) -> String {
+    let toks: Vec<Tok> = toks.iter().map(|t| decode(s(t))).collect();
+    render(&toks, rng).0
+}
+
 /// `[ doc = "line" ]` at k, when the line can be written as a doc comment
 fn doc_line(toks: &[Tok], k: usize) -> Option<&str> {
     if k + 4 < toks.len() && is_pu(&toks[k], "[") && matches!(&toks[k + 1], Tok::Id(n) if n == "doc") && is_pu(&toks[k + 2], "=") && is_pu(&toks[k + 4], "]") {
